@@ -17,7 +17,7 @@ for t in base["stable_pass"]:
 wt = tempfile.mkdtemp(prefix="confirm-", dir="/tmp")
 os.rmdir(wt)
 def sh(c, cwd=None, **kw):
-    return subprocess.run(c, shell=True, cwd=cwd, env=env, capture_output=True, text=True, **kw)
+    return subprocess.run(c, shell=True, cwd=cwd, env=env, capture_output=True, text=True, errors="replace", **kw)
 r = sh(f"git -C /repo worktree add --detach {wt} HEAD")
 assert r.returncode == 0, r.stderr
 res = {"dir": d}
